@@ -13,3 +13,7 @@ mod c03_response;
 mod c18_shutdown;
 #[cfg(kani)]
 mod c08_decoders;
+#[cfg(kani)]
+mod c11_cookies;
+#[cfg(kani)]
+mod c13_basicauth;
